@@ -64,7 +64,7 @@ func runParseBatch(c *Ctx, jobs []*SynJob, drv string, refs []*parseRef, judge j
 			}
 			continue
 		}
-		cases = append(cases, &DCase{G: ref.job.Name, Op: "parse", Feed: &DFeed{Toks: ref.job.Names(ref.toks), Fail: ref.fail, Render: len(cases)%2 == 0}})
+		cases = append(cases, &DCase{G: ref.job.Name, Op: "parse", Feed: &DFeed{Toks: ref.job.Names(ref.toks), Fail: ref.fail, Render: len(cases)%2 == 0, Rot: len(cases) % 3}})
 		live = append(live, ref)
 	}
 	if len(cases) == 0 {
